@@ -46,7 +46,7 @@ func init() {
 			"Non-trivial+distinct = hash of (width, string) for non-empty strings; hash of (width, a, b) FirstDiff pairs.",
 		Assumptions: []string{"Get only for i < words(s); ToStr only on in-range word values; from >= 0; end = -1 or >= 0"},
 		Flavours:    releaseAnd386,
-		Required: []string{"arguments-in-read-only-memory", "w=1", "w=2", "w=4", "w=8", "tostr/partial-last-byte", "tostr/empty", "firstdiff/end=-1", "firstdiff/from>=lim", "firstdiff/end-beyond-shorter", "firstdiff/found", "firstdiff/none",
+		Required: []string{"long-run/calls>=100000-per-function", "arguments-in-read-only-memory", "w=1", "w=2", "w=4", "w=8", "tostr/partial-last-byte", "tostr/empty", "firstdiff/end=-1", "firstdiff/from>=lim", "firstdiff/end-beyond-shorter", "firstdiff/found", "firstdiff/none",
 			"firstdiff/prefix-pair", "firstdiff/end>=MaxInt/8", "firstdiff/end<-1", "strs/empty-list", "strs/append-to-element", "strs/batch>=4096", "strs/tostrs-partial-byte-element-not-last", "strs/tostrs-overlapping-views", "byte>=0x80", "len>=300", "tostr/long-result-retained"},
 		Families: func(c *mon.Config) []mon.Family {
 			return []mon.Family{
@@ -68,6 +68,7 @@ func init() {
 						return mon.D{"len": len(s), "what": "long string, all widths, ToStr results retained"}
 					})
 				}},
+				lrFamily(c08LongRun),
 			}
 		},
 	})
@@ -413,7 +414,7 @@ func c08Strs(w *mon.W, idx int) {
 	}
 	w.Op, w.A = "FromStrs", int64(n)
 	qStrs, gStrs := dirtyStrs(strs) // the list as a view into a larger array
-	if idx%4 == 1 && k > 0 { // or in memory that cannot be written (ro.go)
+	if idx%4 == 1 && k > 0 {        // or in memory that cannot be written (ro.go)
 		if v, rel, ok := roOneStrs(w, strs); ok {
 			qStrs = v
 			defer rel()
